@@ -20,6 +20,7 @@ import (
 	"errors"
 	"fmt"
 	"net"
+	"os"
 	"sync/atomic"
 	"testing"
 	"time"
@@ -38,7 +39,7 @@ const vC11SentinelCorr = int32(0x5E171E1)
 // vC11NewBroker builds the fixture of one case: real handler over an in-memory store and a
 // fake bucket, topic "t" (2 partitions) with one flushed batch in partition 0, group "g"
 // stable with one member that committed offset 1 on t/0.
-func vC11NewBroker() (*handler, *vC11Fx, error) {
+func vC11NewBroker(kind string) (*handler, *vC11Fx, error) {
 	meta := vMeta(map[string]int{"t": 2})
 	store := metadata.NewInMemoryStore(meta)
 	s3 := fakes3.New(fakes3.NewBucket(), "b1")
@@ -48,6 +49,10 @@ func vC11NewBroker() (*handler, *vC11Fx, error) {
 	fail := func(format string, a ...any) (*handler, *vC11Fx, error) {
 		h.coordinator.Stop()
 		return nil, nil, fmt.Errorf(format, a...)
+	}
+	if kind == "bare" { // topic without data, no group; bodies refer to a member that never joined
+		fx.MemberID, fx.Generation = "never-joined", 1
+		return h, fx, nil
 	}
 	res, err := vProduceOne(h, "t", 0, -1, fx.Batch)
 	if err != nil || res.Code != 0 {
@@ -191,7 +196,7 @@ func vC11StartWire() (*vC11Wire, error) {
 // vC11Exchange writes the request followed by a sentinel ApiVersions v0 request and reads
 // frames until the sentinel's reply or EOF: what arrived before belongs to the request.
 // No timeouts are involved in the verdict.
-func vC11Exchange(conn net.Conn, wire []byte) vC11Got {
+func vC11Exchange(conn net.Conn, wire []byte) (vC11Got, error) {
 	sent := kmsg.NewPtrApiVersionsRequest()
 	sent.Version = 0
 	go func() {
@@ -202,15 +207,18 @@ func vC11Exchange(conn net.Conn, wire []byte) vC11Got {
 	for {
 		f, err := protocol.ReadFrame(conn)
 		if err != nil {
+			if errors.Is(err, os.ErrDeadlineExceeded) {
+				return got, errors.New("server did not answer or close within the liveness guard")
+			}
 			got.Closed = true
-			return got
+			return got, nil
 		}
 		if len(f.Payload) >= 4 && int32(binary.BigEndian.Uint32(f.Payload[:4])) == vC11SentinelCorr {
-			return got
+			return got, nil
 		}
 		got.Frames = append(got.Frames, f.Payload)
 		if len(got.Frames) > 4 {
-			return got
+			return got, nil
 		}
 	}
 }
@@ -223,8 +231,7 @@ func (w *vC11Wire) run(h *handler, wire []byte) (vC11Got, error) {
 	}
 	defer conn.Close()
 	_ = conn.SetDeadline(time.Now().Add(60 * time.Second)) // liveness guard only; expiry is a harness error
-	got := vC11Exchange(conn, wire)
-	return got, nil
+	return vC11Exchange(conn, wire)
 }
 
 func TestVerifC11(t *testing.T) {
@@ -239,7 +246,7 @@ func TestVerifC11(t *testing.T) {
 	}
 
 	// the advertised set, read at run time from the real function and from the real reply
-	h0, _, err := vC11NewBroker()
+	h0, _, err := vC11NewBroker("loaded")
 	if err != nil {
 		t.Fatalf("HARNESS-ERROR fixture: %v", err)
 	}
@@ -271,9 +278,11 @@ func TestVerifC11(t *testing.T) {
 	}
 	rep.SetInfo("broker_advertised", advInfo)
 	rep.SetInfo("broker_advertised_pairs", nAdv)
-	rep.SetInfo("version_window", "min-1 .. max+2 per listed key")
+	below, above := vC11Window()
+	rep.SetInfo("version_window", fmt.Sprintf("min-%d .. max+%d per listed key", below, above))
+	rep.SetInfo("broker_fixtures", "loaded (topic t: 2 partitions, one batch in p0; group g stable, one member, committed offset) | bare (topic t without data, no group)")
 
-	cases := vC11Cases("broker", []string{"inproc", "wire"}, keys, adv, listed)
+	cases := vC11Cases("broker", []string{"loaded", "bare"}, []string{"inproc", "wire"}, keys, adv, listed)
 	var only vC11Case
 	if replaying, err := vh.LoadReplay(&only); replaying {
 		if err != nil {
@@ -282,13 +291,7 @@ func TestVerifC11(t *testing.T) {
 		if only.Half != "broker" {
 			t.Skipf("replay is for half %q", only.Half)
 		}
-		var sel []vC11Case
-		for _, c := range cases {
-			if c.Mode == only.Mode && c.Key == only.Key && c.Version == only.Version && c.Body == only.Body {
-				sel = append(sel, c)
-			}
-		}
-		cases = sel
+		cases = vC11Select(cases, only)
 	}
 	rep.SetInfo("broker_cases", len(cases))
 
@@ -312,7 +315,7 @@ func TestVerifC11(t *testing.T) {
 		}
 		corr++
 		body := vC11FindBody(c.Key, c.Body)
-		h, fx, err := vC11NewBroker()
+		h, fx, err := vC11NewBroker(c.Fixture)
 		if err != nil {
 			t.Fatalf("HARNESS-ERROR fixture: %v", err)
 		}
@@ -323,7 +326,7 @@ func TestVerifC11(t *testing.T) {
 		}
 		wireBytes := vC11Format(req, corr)
 		mustReply := c.Advertised && !vC11ProduceAcks0(req)
-		id := fmt.Sprintf("%d/%d/%s", c.Key, c.Version, c.Body)
+		id := fmt.Sprintf("%s/%d/%d/%s", c.Fixture, c.Key, c.Version, c.Body)
 		switch c.Mode {
 		case "inproc":
 			got, herr := vC11Inproc(h, wireBytes)
@@ -362,7 +365,7 @@ func TestVerifC11(t *testing.T) {
 // vC11WouldPanic re-runs a case in-process on its own fixture (used only when the work is
 // sharded, so the wire pass cannot rely on this process having run the inproc twin).
 func vC11WouldPanic(c vC11Case, corr int32) bool {
-	h, fx, err := vC11NewBroker()
+	h, fx, err := vC11NewBroker(c.Fixture)
 	if err != nil {
 		return true
 	}
